@@ -23,6 +23,11 @@ impl Instant {
     pub(crate) fn now() -> Instant {
         Instant(clock::Instant::now())
     }
+
+    #[cfg(mini_moka_verif)]
+    pub(crate) fn verif_std(&self) -> clock::Instant {
+        self.0
+    }
 }
 
 impl CheckedTimeOps for Instant {
